@@ -93,7 +93,7 @@ func implCR(f []string, o *oracleSink) string {
 		if n, err := zr.Read(make([]byte, 8)); n != 0 || err == nil {
 			notes = append(notes, "READ-AFTER-EOF")
 		}
-	} else if src.failAt >= 0 && src.calls > src.failAt {
+	} else if src.failAt >= 0 && src.calls() > src.failAt {
 		if len(res) == 0 || !strings.HasSuffix(res[len(res)-1], "/injected") {
 			notes = append(notes, "SOURCE-ERROR-NOT-PASSED")
 		}
